@@ -76,7 +76,16 @@ SEGS = ["..", ".", "%2e%2e", "%2E%2E", "%2e.", "..%2f", "..%2f..%2f", "%2e%2e%2f
         "%E2%80%A5", "%c0%ae%c0%ae", "%252e%252e", "decoy", "datax", "c%20d"]
 
 
+# last segments for a member of an existing collection: encoded (once, twice) ways out of it
+EVIL_LAST = ["..%2F..%2F..%2F..%2Fesc.ics", "..%252F..%252F..%252F..%252Fesc.ics", "..%252f..%252f..%252f..%252fdecoy%252fesc.ics",
+             "%252e%252e%252f%252e%252e%252f%252e%252e%252f%252e%252e%252fesc.ics", "..%255c..%255cesc.ics",
+             "%2e%2e%2f%2e%2e%2f%2e%2e%2f%2e%2e%2fdatax%2fesc.vcf", "..%25252F..%25252F..%25252F..%25252Fesc.ics",
+             "x%252F..%252F..%252F..%252F..%252F..%252Fesc.ics"]
+
+
 def gen_target(rng, prefix):
+    if rng.random() < 0.12:
+        return prefix.rstrip("/") + rng.choice(["/user/calendars/calendar/", "/user/contacts/addressbook/"]) + rng.choice(EVIL_LAST)
     n = rng.randint(1, 6)
     segs = [rng.choice(SEGS) for _ in range(n)]
     if rng.random() < 0.5:
@@ -133,6 +142,13 @@ def server_audit(chk, n_requests):
             os.makedirs(os.path.join(scratch, "datax"))
             open(os.path.join(scratch, "decoy", "secret.ics"), "wb").write(vevent("decoy"))
             open(os.path.join(scratch, "datax", "secret.vcf"), "wb").write(vcard("decoy"))
+            # the data directory lies inside somebody else's git working tree
+            import subprocess
+            genv = dict(os.environ, GIT_CONFIG_NOSYSTEM="1", HOME=scratch, GIT_AUTHOR_NAME="o", GIT_AUTHOR_EMAIL="o@x",
+                        GIT_COMMITTER_NAME="o", GIT_COMMITTER_EMAIL="o@x")
+            subprocess.run(["git", "init", "-q", scratch], env=genv, capture_output=True)
+            subprocess.run(["git", "-C", scratch, "add", "decoy", "datax"], env=genv, capture_output=True)
+            subprocess.run(["git", "-C", scratch, "commit", "-q", "-m", "outer"], env=genv, capture_output=True)
             srv = make_server(fe, root, prefix=prefix)
             try:
                 # some legitimate content first
@@ -152,6 +168,14 @@ def server_audit(chk, n_requests):
                     finally:
                         REC["on"] = False
                     evs = list(REC["events"])
+                    import guard
+                    while guard.BLOCKED:
+                        ev, bp = guard.BLOCKED.pop()
+                        chk.violation(f"C13:write-outside-the-scratch-area-refused:{method}@{fe}",
+                                      f"{method} {target} via {fe} attempted {ev}({bp!r}) — outside the data root and "
+                                      f"outside the scratch area (refused by the harness guard)",
+                                      {"level": "http", "frontend": fe, "prefix": prefix, "method": method, "target": target,
+                                       "event": ev, "path": bp, "headers": hdrs, "body": body.decode("latin-1")})
                     decoded = urllib.parse.unquote(target)
                     escapes = ".." in posixpath.normpath("/x/y/z" + decoded[len(prefix.rstrip("/")):]).split("/") or \
                         not posixpath.normpath("/x/y/z" + decoded[len(prefix.rstrip("/")):]).startswith("/x/y/z")
